@@ -29,6 +29,7 @@ package main
 import (
 	"bytes"
 	"context"
+	"encoding/json"
 	"fmt"
 	"io"
 	"math/rand"
@@ -37,7 +38,6 @@ import (
 	"os/exec"
 	"path/filepath"
 	"regexp"
-	"sort"
 	"strconv"
 	"strings"
 	"sync"
@@ -663,10 +663,10 @@ func (r *tmxRunner) transfer(x tmxXfer) *tmxXferResult {
 				res.notes = append(res.notes, "the stop prompt never appeared")
 			}
 		case "other-pane-line":
-			// ONE line of output in the other pane while the transfer runs
+			// a few single lines of output in the other pane while the transfer runs (each scrolls that pane by one line)
+			r.srv.run("send-keys", "-t", r.other, "for i in 1 2 3 4 5 6; do sleep 0.12; echo line $i from the other pane; done", "Enter")
 			time.Sleep(250 * time.Millisecond)
 			res.siDuring = r.fmtq("#{status-interval}")
-			r.srv.run("send-keys", "-t", r.other, "echo one line from the other pane", "Enter")
 		case "chatty-stop":
 			// the other pane prints a line every 30 ms; the user stops the transfer
 			r.srv.run("send-keys", "-t", r.other, "while sleep 0.03; do echo chatter; done", "Enter")
@@ -963,11 +963,11 @@ func tmxScenarios(c *ctx) []*tmxScn {
 		out = append(out, s)
 	}
 	add("n-up-small", "normal", nil, up("small", "ok", true, "-y"), down("small", "ok", true))
-	add("n-down-flat", "normal", nil, down("flat", "ok", false), up("flat", "ok", false))
-	add("n-dir", "normal", func(s *tmxScn) { s.sync = true }, up("dir", "ok", false, "-d"), down("dir", "ok", false, "-d"))
-	add("n-binary", "normal", nil, up("flat", "ok", false, "-b"), down("flat", "ok", false, "-b"))
-	add("n-status", "normal", func(s *tmxScn) { s.status = true; s.sync = true }, up("medium", "ok", false, "-y"), down("medium", "ok", false))
-	add("n-narrow", "normal", func(s *tmxScn) { s.narrow = 30 }, up("small", "ok", true), down("medium", "ok", false))
+	add("n-down-flat", "normal", nil, down("flat", "ok", true), up("flat", "ok", true))
+	add("n-dir", "normal", func(s *tmxScn) { s.sync = true }, up("dir", "ok", true, "-d"), down("dir", "ok", true, "-d"))
+	add("n-binary", "normal", nil, up("flat", "ok", true, "-b"), down("flat", "ok", false, "-b"))
+	add("n-status", "normal", func(s *tmxScn) { s.status = true; s.sync = true }, up("medium", "ok", true, "-y"), down("medium", "ok", true))
+	add("n-narrow", "normal", func(s *tmxScn) { s.narrow = 30 }, up("small", "ok", true), down("medium", "ok", true))
 	add("n-stop-api", "normal", nil, up("big", "stop-api", false))
 	add("n-stop-key", "normal", func(s *tmxScn) { s.status = true }, down("big", "stop-key", false))
 	add("n-stop-delete", "normal", nil, up("big", "stop-delete", false))
@@ -977,9 +977,10 @@ func tmxScenarios(c *ctx) []*tmxScn {
 	add("n-other-pane-h", "normal", func(s *tmxScn) { s.busy = "h" }, tmxXfer{upload: false, shape: "medium", end: "other-pane-line"})
 	add("n-chatty", "normal", func(s *tmxScn) { s.busy = "v" }, tmxXfer{upload: true, shape: "big", end: "chatty-stop"})
 	add("n-hup", "normal", nil, tmxXfer{upload: true, shape: "big", end: "hup"})
-	add("n-resize", "normal", func(s *tmxScn) { s.resize = true }, up("medium", "ok", false), down("medium", "ok", false))
+	add("n-resize", "normal", func(s *tmxScn) { s.resize = true }, up("medium", "ok", true), down("medium", "ok", true))
 	add("r-small", "relay", nil, up("small", "ok", true, "-y"), down("small", "ok", true))
-	add("r-narrow", "relay", func(s *tmxScn) { s.narrow = 34; s.sync = true }, down("medium", "ok", false), up("flat", "ok", false))
+	add("r-narrow", "relay", func(s *tmxScn) { s.narrow = 34; s.sync = true }, down("medium", "ok", true), up("flat", "ok", true))
+	add("r-binary", "relay", nil, down("flat", "ok", true, "-b"), up("flat", "ok", true, "-b"))
 	add("r-stop", "relay", nil, up("big", "stop-api", false), down("one", "ok", true))
 	add("c-up", "control", nil, up("flat", "ok", false, "-y"), down("flat", "ok", false))
 	add("c-stop", "control", nil, up("big", "stop-key", false), down("one", "ok", false))
@@ -1114,7 +1115,7 @@ func tmxJudge(c *ctx, r *tmxResult, junkT *c16Real) {
 				c.count("other-pane-line:survived")
 			} else {
 				c.count("other-pane-line:transfer-failed")
-				c.violate(tmxKey("other-pane-output"), "one line printed by another pane of the same window while the transfer runs makes the transfer fail (tmux scrolls the other pane with a bare line feed; the junk-tolerant reader hands the redraw to the protocol as a line)",
+				c.violate(tmxKey("other-pane-output"), "a few lines printed one by one by another pane of the same window while the transfer runs make the transfer fail (tmux scrolls the other pane with a bare line feed; the junk-tolerant reader hands the redraw to the protocol as a line)",
 					detail(strings.Join(x.diffs, "; ")))
 				continue
 			}
@@ -1248,6 +1249,56 @@ func tmxProgress(c *ctx, sc *tmxScn, x *tmxXferResult, kind string, detail func(
 	}
 }
 
+var tmxTieLimit = 250000
+
+// tmxConfig: the configuration line as the client read it carries what tmux adds (the server inside tmux, or the relay
+// inside tmux on behalf of a server that is not)
+func tmxConfig(c *ctx, sc *tmxScn, x *tmxXferResult, kind string, chunks [][]byte, junkT *c16Real, detail func(string) string) {
+	var head [][]byte
+	n := 0
+	for _, ch := range chunks {
+		head = append(head, ch)
+		if n += len(ch); n > 32<<10 {
+			break
+		}
+	}
+	res := junkT.run(head, []string{"CFG"}, true)
+	if len(res) != 1 || !strings.HasPrefix(res[0], "d") {
+		c.count("cfg:not-in-the-first-32k")
+		return
+	}
+	line, _ := hexDecode(res[0][1:])
+	if !bytes.HasPrefix(line, []byte("#CFG:")) {
+		c.violate(tmxKey("cfg-line", kind), "the first line the client's reader recovers is not the configuration line", detail(fmt.Sprintf("line %q", line)))
+		return
+	}
+	js, err := decodeLinePayload(string(line[5:]))
+	var m map[string]any
+	if err != nil || json.Unmarshal(js, &m) != nil {
+		c.violate(tmxKey("cfg-line", kind), "the configuration line the client read does not decode", detail(fmt.Sprintf("line %q", line)))
+		return
+	}
+	c.count("cfg:checked:" + sc.topo)
+	junk, _ := m["tmux_output_junk"].(bool)
+	width, _ := m["tmux_pane_width"].(float64)
+	binary, _ := m["binary"].(bool)
+	if !junk {
+		c.violate(tmxKey("cfg-junk-flag", sc.topo), "inside tmux normal mode the configuration must announce tmux_output_junk (the client's reader then tolerates the redraws)", detail(string(js)))
+	}
+	if int(width) != x.paneWidth {
+		c.violate(tmxKey("cfg-pane-width", sc.topo), "the configuration does not carry the width of the pane the transfer runs in", detail(fmt.Sprintf("pane width %d, cfg %s", x.paneWidth, js)))
+	}
+	wantBinary := false
+	for _, f := range x.x.flags {
+		if f == "-b" && !x.x.upload && sc.topo == "normal" {
+			wantBinary = true // tsz -b in tmux normal mode keeps binary
+		}
+	}
+	if binary != wantBinary {
+		c.violate(tmxKey("cfg-binary", kind), "binary mode negotiated where it must not be (uploads inside tmux, anything behind a relay without a tunnel), or refused where tsz keeps it", detail(string(js)))
+	}
+}
+
 // tmxTie replays what the pty delivered while the client was transferring through the REAL recvLine and hands the same
 // chunks to the model; it also classifies the noise tmux really inserted.
 func tmxTie(c *ctx, sc *tmxScn, x *tmxXferResult, kind string, junkT *c16Real, detail func(string) string) {
@@ -1289,9 +1340,26 @@ func tmxTie(c *ctx, sc *tmxScn, x *tmxXferResult, kind string, junkT *c16Real, d
 		c.count("tie:control-mode-stream-is-not-protocol")
 		return
 	}
-	if !x.x.tie || total > 60000 {
+	tmxConfig(c, sc, x, kind, chunks, junkT, detail)
+	if !x.x.tie || total > tmxTieLimit {
 		c.count("tie:too-big-for-the-model")
-		tmxShapes(c, flat, nil)
+		// where tmux's output begins relative to the protocol lines (cheap scan, no reader)
+		for i, b := range flat {
+			if b != 0x1b || (i > 0 && tmxInNoise(flat, i)) || strings.Contains(strings.Join(x.x.flags, " "), "-b") {
+				continue
+			}
+			if os.Getenv("TMX_DEBUG") == "4" && i > 0 && flat[i-1] != '\n' {
+				fmt.Fprintf(os.Stderr, "INSIDE %s @%d/%d: %q\n", x.desc, i, len(flat), flat[max(0, i-40):min(len(flat), i+300)])
+			}
+			switch {
+			case i == 0 || flat[i-1] == '\n':
+				c.count("noise:big:begins-between-lines")
+			case bytes.HasPrefix(flat[i:], []byte("\x1bP=")):
+				c.count("noise:big:begins-inside-a-line:sync-marker")
+			default:
+				c.count("noise:big:begins-inside-a-line:bare")
+			}
+		}
 		return
 	}
 	// pass 1: learn the line types with a type that never matches (the cut then falls back to the last '#')
@@ -1364,40 +1432,69 @@ func hexDecode(s string) ([]byte, error) {
 	return out, nil
 }
 
-// tmxShapes classifies, per LF-terminated raw line, what tmux put around and into the protocol line
+// tmxInNoise: the ESC at i continues a run of tmux output (there is another ESC within the 200 bytes before it and no
+// line feed in between)
+func tmxInNoise(flat []byte, i int) bool {
+	for j := i - 1; j >= 0 && j > i-200; j-- {
+		if flat[j] == '\n' && (j == 0 || flat[j-1] != '\r') {
+			return false
+		}
+		if flat[j] == 0x1b {
+			return true
+		}
+	}
+	return false
+}
+
+// tmxShapes classifies what tmux put around and into the protocol lines the client read.  The raw stream is cut the way
+// the junk-tolerant reader cuts it: at a line feed that does not follow a carriage return (CR LF is a wrap).
 func tmxShapes(c *ctx, flat []byte, lines [][]byte) {
-	raws := bytes.Split(flat, []byte("\n"))
+	var raws [][]byte
+	start := 0
+	for i, b := range flat {
+		if b == '\n' && (i == 0 || flat[i-1] != '\r') {
+			raws = append(raws, flat[start:i])
+			start = i + 1
+		}
+	}
 	li := 0
 	for _, raw := range raws {
 		if li >= len(lines) {
 			break
 		}
 		want := lines[li]
-		if !bytes.Contains(raw, want[:min(len(want), 5)]) && !bytes.Contains(raw, []byte("#")) {
-			c.count("noise:raw-line-without-marker")
-			continue
-		}
 		li++
 		switch {
 		case bytes.Equal(raw, want):
 			c.count("noise:line-clean")
+			continue
 		case bytes.HasSuffix(raw, want):
 			front := raw[:len(raw)-len(want)]
-			switch {
-			case bytes.Contains(front, []byte("\x1bP=")):
-				c.count("noise:front-with-sync-marker")
-			case bytes.Contains(front, []byte("\x1b")):
-				c.count("noise:front-escape-sequences")
-			default:
-				c.count("noise:front-text")
+			c.count("noise:junk-in-front")
+			if bytes.Contains(front, []byte("\x1bP=1s\x1b\\")) && bytes.Contains(front, []byte("\x1bP=2s\x1b\\")) {
+				c.count("noise:front:redraw-inside-sync-markers")
 			}
-		case bytes.Contains(raw, []byte("\x1bP=")):
-			c.count("noise:status-inside-line")
-		case bytes.Contains(raw, []byte("\r")):
-			c.count("noise:cr-inside-line")
+			if bytes.Contains(front, []byte("\r\n")) {
+				c.count("noise:front:with-cr-lf")
+			}
+			if bytes.Contains(front, []byte("[main]")) {
+				c.count("noise:front:status-line-redraw")
+			}
+			if bytes.Contains(front, []byte("\xe2\x94\x82")) || bytes.Contains(front, []byte("\xe2\x94\x80")) {
+				c.count("noise:front:pane-border-redraw")
+			}
+			if bytes.Contains(front, []byte("#")) {
+				c.count("noise:front:with-hash")
+			}
 		default:
-			c.count("noise:other-inside-line")
+			// something inside the line
+			c.count("noise:inside-line")
+			if bytes.Contains(raw, []byte("\x1bP=")) {
+				c.count("noise:inside:sync-markers")
+			}
+			if bytes.Contains(raw, []byte("\r\n")) {
+				c.count("noise:inside:cr-lf")
+			}
 		}
 	}
-	_ = sort.Strings
 }
